@@ -203,6 +203,11 @@ func generateGrid(family string, n int, r *rng, p func(string, ...any)) bool {
 				p("new signer %d %s", a, k)
 				p("new verifier %d %s", a, k)
 			}
+			// public keys of the Go type ed25519.PublicKey but of another length (verifier side only:
+			// a private key of the wrong length cannot even report its public half)
+			for _, k := range []string{"ed31", "ed33", "ed0"} {
+				p("new verifier %d %s", a, k)
+			}
 		}
 		return true
 	case "keygrid":
@@ -755,17 +760,24 @@ func genIntEdgeGrid(p func(string, ...any)) {
 
 // labels wrapped in a tag — in particular the self-described CBOR tag 55799, which the CBOR library
 // strips silently — are not integer or text items: refused in every bucket of every layer
+func tagW(tag uint64, hw int, x *W) *W {
+	w := wTag(tag, x)
+	w.HW = hw
+	return w
+}
+
 func genTaggedLabelGrid(p func(string, ...any)) {
 	payload := []byte{0x50}
-	for _, tag := range []uint64{55799, 1, 2, 100} {
+	for ti, tag := range []uint64{55799, 55799, 55799, 1, 2, 100} {
 		for _, lbl := range []*W{wInt(1), wInt(4), wInt(99), wInt(-1), wTstr("a")} {
+			tagHW := []int{-1, 4, 8, -1, -1, -1}[ti] // tag 55799 also under a 4- and an 8-byte head
 			val := wInt(-7)
 			if lbl.M == 0 && lbl.N == 4 {
 				val = wBstr([]byte{0x31})
 			}
-			prot := wMap(wTag(tag, lbl.clone()), val.clone())
-			protAlg := wMap(wInt(1), wInt(-7), wTag(tag, lbl.clone()), val.clone())
-			um := wMap(wTag(tag, lbl.clone()), val.clone())
+			prot := wMap(tagW(tag, tagHW, lbl.clone()), val.clone())
+			protAlg := wMap(wInt(1), wInt(-7), tagW(tag, tagHW, lbl.clone()), val.clone())
+			um := wMap(tagW(tag, tagHW, lbl.clone()), val.clone())
 			p("dec ph %s", hexs(wBstr(prot.enc()).enc()))
 			p("dec ph %s", hexs(wBstr(protAlg.enc()).enc()))
 			p("dec uh %s", hexs(um.enc()))
@@ -781,7 +793,7 @@ func genTaggedLabelGrid(p func(string, ...any)) {
 			cs := wArr(wBstr(prot.enc()), wMap(), sigB.clone())
 			p("dec s1 %s", hexs(wTag(18, wArr(wBstr(wMap(wInt(1), wInt(-7)).enc()), wMap(wInt(11), cs), wBstr(payload), sigB.clone())).enc()))
 			p("dec s1 %s", hexs(wTag(18, wArr(wBstr(wMap(wInt(1), wInt(-7)).enc()), wMap(wInt(7), wArr(cs.clone(), cs.clone())), wBstr(payload), sigB.clone())).enc()))
-			p("dec key %s", hexs(wMap(wInt(1), wInt(4), wTag(tag, lbl.clone()), val.clone(), wInt(-1), wBstr([]byte{1})).enc()))
+			p("dec key %s", hexs(wMap(wInt(1), wInt(4), tagW(tag, tagHW, lbl.clone()), val.clone(), wInt(-1), wBstr([]byte{1})).enc()))
 		}
 	}
 }
@@ -981,6 +993,25 @@ func genEncGrid(p func(string, ...any)) {
 		p("enc uh %s", m)
 		p("s1 t S1(H(-;%s;-;%s);00;-) 01 T:-7:1 T:-7:1 a", m, m)
 		p("enc key K(1;-;-8;-;-;{i64:-1=c:6,i64:-2=b:%s,%s})", strings.Repeat("33", 32), strings.Join(parts, ","))
+	}
+	// zero-value Headers (nil maps, no raw bytes): the library allocates the protected map when it
+	// inserts alg — tagged and untagged, message method and helper
+	for _, tag := range []string{"t", "u"} {
+		p("s1 %s S1(H(-;-;-;-);00;-) - T:-7:1 T:-7:1 a", tag)
+		p("s1 %s S1(H(-;-;-;{i64:4=b:31});00;-) - T:-7:1 T:-7:1 d", tag)
+		p("s1 %s S1(H(-;-;-;-);00;-) 01 T:-7:1 T:-7:1 a", tag)
+		p("s1h %s H(-;-;-;-) 00 - T:-7:1", tag)
+	}
+	p("sm SM(H(-;-;-;-);00;[cs(H(-;-;-;-);-),cs(H(-;-;-;-);-)]) - [T:-7:1,T:-35:2] [T:-7:1,T:-35:2] a")
+	p("cs full s1 p val:S1(H(-;{i64:1=a:-7};-;{});00;01) H(-;-;-;-) - T:-7:1 T:-7:1")
+	p("he H(-;-;-;-) -16 %s - - T:-7:1 T:-7:1", strings.Repeat("00", 32))
+	// COSE_Keys with extra parameters that need a tag on the wire (big integers, tagged values): the
+	// encoder's output is accepted by the key decoder and re-encodes to the same bytes
+	for _, v := range []string{"bg:8000000000000000", "bg:ffffffffffffffff", "bg:10000000000000000", "bg:-8000000000000001", "bg:-10000000000000000",
+		"bg:5", "tg:37:b:00112233445566778899aabbccddeeff", "tg:1:i64:1700000000", "tg:100:[i64:1,s:78]", "[bg:8000000000000000,i64:1]", "{i64:1=tg:32:s:75726e3a78}"} {
+		p("enc key K(1;01;-8;[2];02;{i64:-1=c:6,i64:-2=b:%s,s:73657269616c=%s}) !rt", strings.Repeat("33", 32), v)
+		p("enc key K(2;-;0;-;-;{i64:-1=c:1,i64:-2=b:%s,i64:-3=b:%s,i64:-70001=%s}) !rt", strings.Repeat("5a", 32), strings.Repeat("a5", 32), v)
+		p("enc ph {i64:1=a:-7,i64:99=%s} !rt", v)
 	}
 	// Go time.Time values (the encoder writes them as untagged epoch integers) and arrays longer
 	// than any small limit, in either bucket and inside a signer slot: always decodable
